@@ -78,8 +78,9 @@ def run(ck):
     ctxs = []
     for rm in RM:
         ctxs.append({'kind': 'mpfloat', 'p': 2, 'rm': rm})
-        ctxs.append({'kind': 'mpsfloat', 'p': 2, 'emin': -1, 'rm': rm})
-    for rm in ('RNE', 'RTZ', 'RTP', 'RTN', 'RTO'):
+        if thorough or rm in ('RNE', 'RNA', 'RTN', 'RTE'):
+            ctxs.append({'kind': 'mpsfloat', 'p': 2, 'emin': -1, 'rm': rm})
+    for rm in (('RNE', 'RTZ', 'RTP', 'RTN', 'RTO') if thorough else ('RNE', 'RTP', 'RTO')):
         ctxs.append({'kind': 'mpfloat', 'p': 1, 'rm': rm})
         ctxs.append({'kind': 'efloat', 'es': 2, 'nbits': 4, 'enable_inf': True, 'nk': 'IEEE_754', 'eoffset': 0, 'rm': rm, 'ov': 'OVERFLOW'})
         ctxs.append({'kind': 'mpfixed', 'nmin': -2, 'rm': rm, 'enable_nan': True, 'enable_inf': True})
@@ -99,7 +100,7 @@ def run(ck):
             ar = ARITY[name]
             fn = getattr(ops, name)
             pool = vals if ar <= 2 else small
-            if ar == 2 and not thorough and d.get('rm', 'RNE') not in ('RNE', 'RTZ', 'RTN') and d['kind'] != 'mpfloat':
+            if ar == 2 and not thorough and (d.get('rm', 'RNE') not in ('RNE', 'RTN') or d['kind'] not in ('mpfloat', 'mpsfloat', 'real')):
                 pool = small
             for args in itertools.product(pool, repeat=ar):
                 fargs = [mkf(a) for a in args]
